@@ -204,10 +204,10 @@ impl<T: PartialOrd> Interval<T> {
     /// # Ok::<(),stats_ci::error::IntervalError>(())
     /// ```
     pub fn new(low: T, high: T) -> Result<Self, IntervalError> {
-        if low > high {
-            Err(IntervalError::InvalidBounds)
-        } else {
+        if low <= high {
             Ok(Interval::TwoSided(low, high))
+        } else {
+            Err(IntervalError::InvalidBounds)
         }
     }
 
